@@ -257,6 +257,8 @@ func propC19(p *Prog, r *Report) {
 	c19Guards(p, r, mar, unm)
 	c19Keys(p, r)
 	c19GetAll(p, r)
+	r.Rule("C19.f", "the bytes handed to the decoder are the bytes stored: in the Badger layer, key and value bytes of iterator items are copied before they leave the iteration (Badger recycles the buffers of iterator items)")
+	c19IteratorCopies(p, r, "C19.f")
 	r.Rule("C19.e", "independent decoding: the decoder assigns every field on every success path, or every call site decodes into a fresh record")
 	c19DecodeTargetFresh(p, r, "C19.e")
 }
